@@ -156,6 +156,57 @@ def convex_qp(rng, n, m, var_kinds=None, row_kinds=None, fmt="coo", quad_rows=Fa
     return prob, x0, {"var_kinds": var_kinds, "row_kinds": row_kinds, "feasible_point": xf}
 
 
+def banded_qp(rng, n, m, bw=2, fmt="csr"):
+    """Large banded strictly convex QP: Q banded and strictly diagonally dominant (eigenvalues in [1.2, 5.8]), m affine rows
+    with disjoint supports of bw + 1 consecutive variables (full row rank, orthogonal rows), every kind of variable and row,
+    a strictly feasible point by construction; returns (problem, in-bounds start, info)."""
+    Q = np.diag(rng.uniform(2.0, 5.0, size=n))
+    for k in range(1, bw + 1):
+        off = rng.uniform(-0.4 / bw, 0.4 / bw, size=n - k)
+        Q += np.diag(off, k) + np.diag(off, -k)
+    var_kinds = [VAR_KINDS[rng.integers(0, 5)] for _ in range(n)]
+    xf = rng.uniform(-1.0, 1.0, size=n)
+    xl = np.full(n, -INF)
+    xu = np.full(n, INF)
+    for j, k in enumerate(var_kinds):
+        if k in ("lower", "boxed"):
+            xl[j] = xf[j] - rng.uniform(0.2, 1.5)
+        if k in ("upper", "boxed"):
+            xu[j] = xf[j] + rng.uniform(0.2, 1.5)
+        if k == "fixed":
+            xl[j] = xu[j] = xf[j]
+    m = min(m, n // (bw + 2))
+    A = np.zeros((m, n))
+    starts = sorted(rng.choice(n // (bw + 2), size=m, replace=False))
+    for i, s0 in enumerate(starts):
+        cols = np.arange(s0 * (bw + 2), s0 * (bw + 2) + bw + 1)
+        A[i, cols] = rng.choice([-1.0, 1.0], size=bw + 1) * rng.uniform(0.5, 1.5, size=bw + 1)
+        for j in cols:                      # keep every row supported on movable variables
+            if var_kinds[j] == "fixed":
+                var_kinds[j] = "free"
+                xl[j], xu[j] = -INF, INF
+    row_kinds = [ROW_KINDS[rng.integers(0, 5)] for _ in range(m)]
+    cf = A @ xf
+    b = np.zeros(m)
+    cl = np.zeros(m)
+    cu = np.zeros(m)
+    for i, k in enumerate(row_kinds):
+        if k == "eq0":
+            b[i] = cf[i]
+        elif k == "eq":
+            cl[i] = cu[i] = cf[i]
+        elif k == "lower":
+            cl[i], cu[i] = cf[i] - rng.uniform(0.1, 1.0), INF
+        elif k == "upper":
+            cl[i], cu[i] = -INF, cf[i] + rng.uniform(0.1, 1.0)
+        else:
+            cl[i], cu[i] = cf[i] - rng.uniform(0.1, 1.0), cf[i] + rng.uniform(0.1, 1.0)
+    xs = xf + rng.uniform(-2.0, 2.0, size=n)
+    prob = GenProblem(Q, -Q @ xs, A, np.zeros((m, n)), b, cl, cu, xl, xu, fmt=fmt)
+    x0 = np.clip(rng.uniform(-2.0, 2.0, size=n), xl, xu)
+    return prob, x0, {"var_kinds": var_kinds, "row_kinds": row_kinds, "feasible_point": xf}
+
+
 def degenerate_problem(rng, kind):
     """Degenerate but well-posed instances: all variables fixed / free rows / duplicate (rank-deficient) rows / empty
     Jacobian rows / huge magnitudes / pure feasibility problem / start exactly at the solution."""
